@@ -4,7 +4,7 @@ import json, os, subprocess, sys, re
 ROOT = os.path.dirname(os.path.dirname(os.path.abspath(__file__)))
 ids = sys.argv[1:] or sorted(os.listdir(os.path.join(ROOT, "seeded")))
 ids = [i for i in ids if os.path.isdir(os.path.join(ROOT, "seeded", i))]
-resp = os.path.join(ROOT, "seeded", "RESULTS.json")
+resp = os.path.join(ROOT, "seeded", "RESULTS.json" if not os.environ.get("SEEDMATRIX_SEED") else "RESULTS-seed%s.json" % os.environ["SEEDMATRIX_SEED"])
 res = json.load(open(resp)) if os.path.exists(resp) else {}
 import shutil, tempfile
 evid = os.path.join(ROOT, "evidence")
@@ -25,7 +25,7 @@ for sid in ids:
         continue
     subprocess.run(["git", "-C", "/repo", "apply", patch], check=True)
     try:
-        p = subprocess.run([os.path.join(ROOT, "check"), prop], capture_output=True, text=True, timeout=3600)
+        p = subprocess.run([os.path.join(ROOT, "check"), prop] + (["--seed", os.environ["SEEDMATRIX_SEED"]] if os.environ.get("SEEDMATRIX_SEED") else []), capture_output=True, text=True, timeout=3600)
         out = p.stdout + p.stderr
     finally:
         subprocess.run(["git", "-C", "/repo", "checkout", "--", "."], check=True)
